@@ -339,6 +339,19 @@ def toStrD : Data → Option Str
   | .ref p => match p.inner with | .str s => some s | _ => none
   | _ => none
 
+/-- `pattern.replace("\\\\", "\\")` -/
+def unDouble : Str → Str
+  | '\\' :: '\\' :: r => '\\' :: unDouble r
+  | c :: r => c :: unDouble r
+  | [] => []
+
+/-- the pattern operand of `match`/`search`: a pattern written as a string literal (a computed value) still carries the JSONPath escape
+of every backslash, which is undone here; a pattern taken from the document is used as it stands -/
+def toPatD : Data → Option Str
+  | .value (.str s) => some (unDouble s)
+  | .ref p => match p.inner with | .str s => some s | _ => none
+  | _ => none
+
 /-- existence of at least one node (after the fix: no look at the node's value) -/
 def presentOf : Data → Bool
   | .ref _ => true
@@ -404,11 +417,11 @@ def TestFunction.process (E : Engine) (root : Json) : TestFunction → Data → 
   | .count a, d => countFn (a.process E root d)
   | .value a, d => valueFn (a.process E root d)
   | .match a b, d =>
-      match toStrD (a.process E root d), toStrD (b.process E root d) with
+      match toStrD (a.process E root d), toPatD (b.process E root d) with
       | some s, some p => dbool (E.regexFn s p false)
       | _, _ => dbool false
   | .search a b, d =>
-      match toStrD (a.process E root d), toStrD (b.process E root d) with
+      match toStrD (a.process E root d), toPatD (b.process E root d) with
       | some s, some p => dbool (E.regexFn s p true)
       | _, _ => dbool false
   | .custom name args, d => .value (extensionCustom name (FnArg.values E root args d))
